@@ -1099,7 +1099,10 @@ private:
 
   void _skipWhitespace()
   {
-    while (_pos < _text.size() && std::isspace(_text[_pos]))
+    // RFC 8259 section 2: ws = space / horizontal tab / line feed / carriage return (std::isspace also accepts
+    // VT and FF, depends on the locale and is undefined for negative char values)
+    while (_pos < _text.size() &&
+           (_text[_pos] == ' ' || _text[_pos] == '\t' || _text[_pos] == '\n' || _text[_pos] == '\r'))
     {
       ++_pos;
     }
